@@ -161,6 +161,8 @@ type SimConfig struct {
 	// loop header (paths needing more iterations are cut instead of continuing with
 	// widened values).
 	NoWiden bool
+	// DerefEvents: record every field access through a pointer loaded from memory.
+	DerefEvents bool
 	// IndexEvents: record every run-time-checked index into a slice or string as an event.
 	IndexEvents bool
 	// MaxSteps bounds the total number of instructions simulated (default 20 million).
@@ -1136,6 +1138,10 @@ func (s *Sim) simInstrs(fr *Frame, st *State, b *ssa.BasicBlock, from int, k con
 			base := s.val(fr, st, x.X)
 			fld := fieldOf(x.X.Type(), x.Field)
 			fr.env[x] = &Term{Op: "fa", Name: fld.Name(), Obj: fld, Type: x.Type(), Args: []*Term{base}}
+			if s.Cfg.DerefEvents && base.Op == "init" {
+				// a field reached through a pointer that was itself loaded from memory
+				s.emit(st, fr, &Event{Kind: "deref", Instr: x, Args: []*Term{base}})
+			}
 		case *ssa.Field:
 			base := s.val(fr, st, x.X)
 			fld := fieldOf(x.X.Type(), x.Field)
